@@ -535,3 +535,87 @@ def c28(run, tier):
                 if "error" in r or r.get("class") == "Panic": continue
                 check(r, sname, "corpus:" + c["name"], c["program"], g)
     run.extra["programs"] = len(byprog)
+
+# ------------------------------------------------------------------------------------ C13 (first-order part)
+def render_perm(p, order, decls_last):
+    """render_mini with the impls in the given order and, optionally, the struct / trait declarations after them"""
+    q = dict(p, impls=[p["impls"][i] for i in order])
+    items = render_mini(q).split("} ")
+    items = [x if x.endswith("}") else x + "}" for x in items]
+    structs = [x for x in items if x.startswith("struct")]       # kept first: the answers are read through the ADT ids
+    decls = [x for x in items if not x.startswith("impl") and not x.startswith("struct")]
+    impls = [x for x in items if x.startswith("impl")]
+    return " ".join(structs + (impls + decls if decls_last else decls + impls))
+
+def sample_rich(n, rnd):
+    """4..6 impls over A, B, V<_> and three traits, generic and blanket impls weighted up (cycles with non-ground heads)"""
+    ug = impl_universe((1, 2, 3), "AB")
+    gen = [im for im in ug if im["b"] == "X"]
+    progs, seen = [], set()
+    while len(progs) < n:
+        k = rnd.choice([4, 5, 5, 6])
+        impls = [dict(rnd.choice(gen if rnd.random() < 0.6 else ug)) for _ in range(k)]
+        co = sorted(rnd.sample([1, 2, 3], rnd.choice([0, 0, 0, 0, 1])))
+        p = {"impls": impls, "co": co, "super": []}
+        key = json.dumps(p, sort_keys=True)
+        if key in seen: continue
+        seen.add(key); progs.append(p)
+    return progs
+
+def mini_coherent(p):
+    """no two impls of a trait with unifiable heads (the repository's overlap check): only then is declaration order claimed irrelevant"""
+    def overlap(a, b):
+        if a["b"] != "X" and b["b"] != "X": return a["d"] == b["d"] and a["b"] == b["b"]
+        if a["b"] == "X" and b["b"] == "X": return True
+        g, c = (a, b) if a["b"] == "X" else (b, a)
+        return c["d"] >= g["d"]
+    ims = p["impls"]
+    return not any(ims[i]["tr"] == ims[j]["tr"] and overlap(ims[i], ims[j]) for i in range(len(ims)) for j in range(i + 1, len(ims)))
+
+def order_first_order(run, tier):
+    """MiniMC programs: the meaning is a function of the SET of impls; every sampled declaration order must give the same answers
+    (and the right ones) under both solvers"""
+    rnd = random.Random(seed() * 13 + 3)
+    n = 60 if tier == "quick" else 500
+    nperm = 6 if tier == "quick" else 12
+    progs = [p for p in sample_programs(3 * n, rnd, False) + sample_rich(6 * n, rnd) if mini_coherent(p)][:n]
+    byprog = model_check(run, progs, "C13")
+    if byprog is None: return
+    keys = list(byprog)
+    gis = list(range(1, len(GOALS) + 1))
+    nd = 0
+    for solver in (gc.SLG, gc.REC):
+        sname = gc.solver_name(solver)
+        jobs, meta = [], []
+        for k in keys:
+            p = json.loads(k)
+            if co_generic(p): continue                          # KF9 / KF10 fragment: judged by C01 / C04
+            m = len(p["impls"])
+            orders = [list(range(m)), list(reversed(range(m)))]
+            while len(orders) < min(nperm, max(2, m * (m - 1))):
+                o = list(range(m)); rnd.shuffle(o)
+                if o not in orders: orders.append(o)
+            for j, o in enumerate(orders):
+                jobs.append({"id": len(jobs), "program": render_perm(p, o, j % 2 == 1), "solver": solver, "detail": True, "limits": True,
+                             "ops": [{"op": "solve", "goal": GOALS[gi - 1], "fresh": True} for gi in gis]})
+                meta.append((k, o))
+        obs = harness.run("solve", jobs, timeout=300)
+        first = {}
+        for (k, o), job, ob in zip(meta, jobs, obs):
+            base = {"solver": sname, "fragment": "plain", "src": "order"}
+            if ob.get("error"):
+                run.case([k, o, sname]); run.violation(dict(base, what="abort-or-hang"), {"program": job["program"], "solver": solver, "observed": ob}); continue
+            for gi, r in zip(gis, ob["results"]):
+                rec = byprog[k][gi]
+                run.case([k, o, gi, sname], nontrivial=(o != sorted(o)))
+                rp = {"program": job["program"], "goal": rec["goal"], "solver": solver, "order": o, "observed": r}
+                if judge_c01(run, rec, r, base, rp): continue
+                if r.get("limits", 0) > 0: continue           # the property's proviso: the search ran into a size limit
+                ref = first.setdefault((k, gi), (r.get("text"), job["program"]))
+                if r.get("text") != ref[0]:
+                    nd += 1
+                    run.violation(dict(base, what="answer depends on the declaration order", goal=rec["goal"]),
+                                  dict(rp, other_order_program=ref[1], other_order_answer=ref[0]))
+                else: run.traces += 1
+    run.extra["first_order_programs"] = len(keys)
+    run.extra["first_order_orders_per_program"] = nperm
